@@ -659,7 +659,10 @@ def rule_encodeall(ctx):
             yield ob(R, f, "chord.encode_many:cache-store", good, "the per-call cache stores encode(label, reduce_extended_chords)", node=m.node)
 
 
+
+
 RULES = [
+    ("C11.ROTATEROWS", 2, common.shared("c09", "rule_rotaterows", "C11.ROTATEROWS")),
     ("C11.ENCODEPOST", 2, common.shared("c10", "rule_encodepost", "C11.ENCODEPOST")),
     ("C11.TABLES", 30, common.shared("c10", "rule_tables", "C11.TABLES", keep=lambda o: "QUALITIES" in o.construct or "EXTENDED" in o.construct)),
     ("C11.ENCODEPURE", 9, rule_encodepure),
